@@ -14,6 +14,8 @@ import (
 	"errors"
 	"sync"
 	"time"
+
+	"github.com/nsqio/nsq/internal/verif"
 )
 
 const (
@@ -55,6 +57,7 @@ func (f *guidFactory) NewGUID() (guid, error) {
 	ts := time.Now().UnixNano() >> 20
 
 	if ts < f.lastTimestamp {
+		verif.Ev("Guid", "node", f.nodeID, "ts", ts, "lastTs", f.lastTimestamp, "sq", f.sequence, "id", int64(0), "lastId", int64(f.lastID), "err", "backwards")
 		f.Unlock()
 		return 0, ErrTimeBackwards
 	}
@@ -62,6 +65,7 @@ func (f *guidFactory) NewGUID() (guid, error) {
 	if f.lastTimestamp == ts {
 		f.sequence = (f.sequence + 1) & sequenceMask
 		if f.sequence == 0 {
+			verif.Ev("Guid", "node", f.nodeID, "ts", ts, "lastTs", f.lastTimestamp, "sq", f.sequence, "id", int64(0), "lastId", int64(f.lastID), "err", "expired")
 			f.Unlock()
 			return 0, ErrSequenceExpired
 		}
@@ -76,12 +80,14 @@ func (f *guidFactory) NewGUID() (guid, error) {
 		f.sequence)
 
 	if id <= f.lastID {
+		verif.Ev("Guid", "node", f.nodeID, "ts", ts, "lastTs", f.lastTimestamp, "sq", f.sequence, "id", int64(id), "lastId", int64(f.lastID), "err", "idbackwards")
 		f.Unlock()
 		return 0, ErrIDBackwards
 	}
 
 	f.lastID = id
 
+	verif.Ev("Guid", "node", f.nodeID, "ts", ts, "lastTs", f.lastTimestamp, "sq", f.sequence, "id", int64(id), "lastId", int64(f.lastID), "err", "")
 	f.Unlock()
 
 	return id, nil
